@@ -225,6 +225,8 @@ func (m *Manager[T]) scanHelper(id string, nodes []data.NodeEdge) ([]data.NodeEd
 }
 
 func (m *Manager[T]) scan(id string) error {
+	verifEvent("manager.scanStart", m.nodeType)
+	defer verifEvent("manager.scanDone", m.nodeType)
 	nodes, err := m.scanHelper(id, []data.NodeEdge{})
 	if err != nil {
 		return err
@@ -246,6 +248,7 @@ func (m *Manager[T]) scan(id string) error {
 		}
 
 		// Need to create a new client
+		verifEvent("manager.beforeConstruct", m.nodeType, key)
 		cs, err := newClientState(m.nc, m.construct, n)
 
 		if err != nil {
